@@ -31,6 +31,11 @@ var c35Approves = []string{kScApprReg, kScApprReg, kScApprUpd, kScApprQuit}
 
 const c35F13a = "approveQuitSideChain-request-not-deleted"
 
+// An update request outlives the removal of the chain it was made for: after the id is registered
+// again by somebody else, approving the old request overwrites the new owner's record (and owner).
+// Judged like F13a (the registered owner of the chain that is changed never asked for it).
+const c35StaleUpd = "updateSideChainRequest-survives-chain-removal"
+
 func genC35(t *rapid.T) c35Case {
 	n := rapid.IntRange(4, ev.Scale(7, 13)).Draw(t, "n")
 	o := n + spareNodes
@@ -153,6 +158,7 @@ func runC35(ctx *ev.Ctx, c c35Case) {
 		chains[id] = &c35Chain{appr: map[string]map[common.Address]bool{}}
 	}
 	neutral := ev.IsKnown("C35", c35F13a) && !ctx.Replaying
+	neutralUpd := ev.IsKnown("C35", c35StaleUpd) && !ctx.Replaying
 	var sawUpd, sawQuit, sawNonOwner, sawOverwrite bool
 	step := 0
 	for _, top := range c.Ops {
@@ -166,6 +172,10 @@ func runC35(ctx *ev.Ctx, c c35Case) {
 			ch := chains[t.id]
 			if op.K == kScApprQuit && neutral && !ch.quit && ch.quitConsumed {
 				e.label("excluded:approval-of-consumed-quit-request(" + c35F13a + ")")
+				continue
+			}
+			if op.K == kScApprUpd && neutralUpd && ch.upd.Present && ch.reg.Present && ch.reg.Owner != ch.upd.Owner {
+				e.label("excluded:approval-of-former-owners-update-request(" + c35StaleUpd + ")")
 				continue
 			}
 			sr := e.exec(op)
@@ -290,13 +300,14 @@ func c35Count(ctx *ev.Ctx, e *eng, ch *c35Chain, k string, sr stepRes, cons map[
 	case kScApprReg:
 		ch.reg, ch.apply = ch.apply, scRec{}
 	case kScApprUpd:
-		// classes the statement does not settle (the request was made by the then registered owner, but the chain
-		// has been removed / re-registered since): counted, and the model follows the stored request
 		switch {
 		case !ch.reg.Present:
+			// not settled by the statement (the id is registered from an approved request of its former owner,
+			// without a registration request): counted, the model follows the stored request
 			e.label("ambiguous:stale-update-request-applied-to-unregistered-chain")
 		case ch.reg.Owner != ch.upd.Owner:
-			e.label("ambiguous:stale-update-request-of-former-owner-applied")
+			ctx.Known(c35StaleUpd, "%s replaced the record of chain %d (%v) by %v: an update requested by a former owner before the chain was removed and re-registered; the registered owner never requested an update",
+				what, id, ch.reg, ch.upd)
 		}
 		ch.reg, ch.upd = ch.upd, scRec{}
 	case kScApprQuit:
